@@ -3,5 +3,5 @@
    instantiate every grammar TLC quantified over as a real ruleset (spec -> code). *)
 EXTENDS MC_PTQueue
 ASSUME JsonSerialize(IOEnv.OUT_FILE, SetToSeq(MCGrammars))
-ESpec == Init /\ [][FALSE]_vars
+ESpec == (G = 0 /\ queue = 0 /\ cur = 0 /\ pc = 0 /\ cycles = 0 /\ saved = 0 /\ done = 0 /\ emS = 0 /\ lastP = 0) /\ [][FALSE]_vars
 =============================================================================
